@@ -247,6 +247,7 @@ type Ctx struct {
 	ParamVals []Value
 	InitSym map[int]*Object
 	InlineAll bool
+	JSVals   map[int64]Value // EV mode: concrete values behind js.Value refs (C19 table evaluation)
 	alloc0   *Term
 	initVals map[*Object]Value
 	globals  map[*ssa.Global]*Object
